@@ -76,6 +76,16 @@ class Event:
         on normally: everything except path guards whose other arm raises."""
         return tuple(g for g, k in zip(self.guards, self.gkinds) if k != 'raise')
 
+    @property
+    def nguards(self):
+        """Guards as canonical terms: the condition, or its normalised negation."""
+        return {(c if p else T.not_(c)) for c, p in self.guards}
+
+    def under(self, cond, polarity=True):
+        """Is the event lexically guarded by ``cond`` (polarity False: by its negation)?"""
+        want = cond if polarity else T.not_(cond)
+        return want in self.nguards
+
     def guard_terms(self, polarity=None):
         return [g for g, p in self.guards if polarity is None or p == polarity]
 
